@@ -54,7 +54,7 @@ def search(chk, rnd):
        only): clean reboot (drop + try_recover) before every fragment of lossy deliveries with late data; the resumed run
        must report completion at the fragment where peeling over the received fragments can recover everything"""
     scns = []
-    for _ in range(120 if chk.quick() else 1500):
+    for _ in range(120 if chk.quick() else 800):
         b = v1.build(rnd, "naive", with_prior=False)
         me = b.meta
         if not me["lost"] or me["pcap"] < 2:
@@ -99,7 +99,7 @@ def search(chk, rnd):
 def run(chk):
     chk.prove()
     rnd = random.Random(chk.seed)
-    count = 140 if chk.quick() else 5000
+    count = 140 if chk.quick() else 2000
     both = []
     for which, ffr in (("naive", False), ("naive", True), ("orig", False)):
         r2 = random.Random(chk.seed + 7)         # the same scenarios for every implementation (v1_agree)
@@ -129,7 +129,7 @@ def run(chk):
             chk.failures.append(core.Failure("the two V1 implementations disagree: naive %s, original %s" % ("".join(ha), "".join(hb)), "session", "naive", s.line(), "", key="c19"))
     # power loss at operation boundaries, flash-algo-new variant
     r3 = random.Random(chk.seed + 19)
-    bases = [v1.build(r3, "naive", with_prior=False) for _ in range(8 if chk.quick() else 200)]
+    bases = [v1.build(r3, "naive", with_prior=False) for _ in range(8 if chk.quick() else 80)]
     lines, impl, refouts = v1.run(chk, bases, "naive", stream="v1-crash-ref")
     cases = []
     for b, ro in zip(bases, refouts):
